@@ -152,7 +152,7 @@ def run(ctx):
     elif q:
         names, cases = mtlib.gen_matcher_cases(ctx, ["a", "b", "c", "."], 3, ["regex", "notregex", "opts"], 1, tag="gen_main")
     else:
-        names, cases = mtlib.gen_matcher_cases(ctx, ["a", "b", "c", ".", "1"], 4, ["regex", "notregex", "opts"], 2,
+        names, cases = mtlib.gen_matcher_cases(ctx, ["a", "b", "c", "."], 4, ["regex", "notregex", "opts"], 2,
                                                workers=6, tag="gen_main", timeout=6000)
     ctx.log("TLC enumerated %d filters x %d names" % (len(cases), len(names)))
     must = {"^ab?c", "^a|b", "^a\\.*b", "^ab*", "^ab{0,1}"}
@@ -247,7 +247,7 @@ def run(ctx):
                    "names = all strings up to length %d over %d characters; non-trivial = pairs of filters whose verdict vector is "
                    "neither all-accept nor all-reject.  Use sites: %d events at blacklist/route/destination(all,first)/aggregation"
                    "(keep,drop,cache)/aggregate-routing sites, each re-evaluated by MatcherTrace.tla; %d cache histories." % (
-                       ctx.pick(3, 4), ctx.pick(4, 5), len(events), len(hs)))
+                       ctx.pick(3, 4), 4, len(events), len(hs)))
     big = max(cases, key=lambda c: len(c["f"]["regex"]) + len(c["f"]["notRegex"]))
     ctx.sample(dict(filter=big["f"], names=names[:12], expect=big["expect"][:12]))
     ctx.sample(dict(site_event={k: events[0][k] for k in ("site", "go", "name", "v", "t", "obs")}))
